@@ -1,8 +1,8 @@
 /-
 Helper lemmas for C11 (part 6): the get-or-create machine of the segstore table (`Model/ConcCreate.lean`) with the
-program order of createSegStore extracted from the source (`Cfg.real`): the state invariant, its preservation by
-every step (under the eviction guard when `g = true`; the lock / suffix part also without it, `g = false`), and
-the invariant of eviction-free runs "every store ever built is registered or about to be".
+program order of createSegStore extracted from the source and the mark-and-retry protocol of removeStaleSegments /
+AddEntryToInMemBuf (`Cfg.real`): the state invariant, its preservation by every step of every schedule, and the
+invariant of eviction-free runs "every store ever built is registered or about to be".
 -/
 import SigModel.Model.ConcCreate
 set_option linter.unusedSimpArgs false
@@ -17,12 +17,14 @@ abbrev P3 : List CStep := [.sufWrite, .insert, .unlock]
 abbrev P4 : List CStep := [.insert, .unlock]
 abbrev P5 : List CStep := [.unlock]
 
-/-- the store a call is about to append to exists, belongs to the call's stream and (guarded runs) is registered -/
-def RetOk (g : Bool) (s : St) (th : Thread) : Prop :=
-  ∃ r, th.ret = some r ∧ r < s.nstores ∧ (s.store r).stream = th.stream ∧ (g = true → s.table th.stream = some r)
+/-- the store a call is about to append to exists, belongs to the call's stream and, unless removeStaleSegments has
+marked it, is the registered store of the stream -/
+def RetOk (s : St) (th : Thread) : Prop :=
+  ∃ r, th.ret = some r ∧ r < s.nstores ∧ (s.store r).stream = th.stream ∧
+    ((s.store r).removed = false → s.table th.stream = some r)
 
 /-- what is known about call `t`, by program counter -/
-def ThreadOk (g : Bool) (s : St) (t : Nat) : Prop :=
+def ThreadOk (s : St) (t : Nat) : Prop :=
   match (s.thread t).pc with
   | .idle => s.lock ≠ some t
   | .create todo =>
@@ -33,43 +35,47 @@ def ThreadOk (g : Bool) (s : St) (t : Nat) : Prop :=
        (todo = P3 ∧ s.lock = some t ∧ s.table (s.thread t).stream = none ∧
           (s.thread t).suf = s.sufFile (s.thread t).stream) ∨
        (todo = P4 ∧ s.lock = some t ∧ s.table (s.thread t).stream = none ∧
-          ∃ m, (s.thread t).mine = some m ∧ m < s.nstores ∧ (s.store m).stream = (s.thread t).stream) ∨
-       (todo = P5 ∧ s.lock = some t ∧ RetOk g s (s.thread t)))
-  | .append => t ∈ s.started ∧ s.lock ≠ some t ∧ RetOk g s (s.thread t)
+          ∃ m, (s.thread t).mine = some m ∧ m < s.nstores ∧ (s.store m).stream = (s.thread t).stream ∧
+            (s.store m).removed = false) ∨
+       (todo = P5 ∧ s.lock = some t ∧ RetOk s (s.thread t)))
+  | .append => t ∈ s.started ∧ s.lock ≠ some t ∧ RetOk s (s.thread t)
+  | .retry => t ∈ s.started ∧ s.lock ≠ some t
   | .done => t ∈ s.started ∧ s.lock ≠ some t ∧ ∃ r, (t, r) ∈ s.acked
 
-structure Inv (g : Bool) (s : St) : Prop where
-  th : ∀ t, ThreadOk g s t
-  tab : ∀ i r, s.table i = some r → r < s.nstores ∧ (s.store r).stream = i
-  ack : g = true → ∀ e r, (e, r) ∈ s.acked →
+structure Inv (s : St) : Prop where
+  th : ∀ t, ThreadOk s t
+  tab : ∀ i r, s.table i = some r → r < s.nstores ∧ (s.store r).stream = i ∧ (s.store r).removed = false
+  ack : ∀ e r, (e, r) ∈ s.acked →
         r < s.nstores ∧ (e ∈ s.persisted ∨ (e ∈ (s.store r).events ∧ s.table (s.store r).stream = some r))
   sufH : ∀ i k, (i, k) ∈ s.handed → k < s.sufFile i
   nodup : s.handed.Nodup
 
-/-- the eviction guard of one step -/
-def stepOk (s : St) : Label → Prop
-  | .evict i => ∀ t, t ∈ s.started → holdsRegistered s i t = false
-  | _ => True
-
-theorem inv_init (g : Bool) : Inv g init := by
+theorem inv_init : Inv init := by
   constructor <;> simp [init, ThreadOk]
 
-/-- what a step by somebody else must leave alone for `ThreadOk g · u` to survive -/
-theorem threadOk_frame {g : Bool} {s s' : St} {u : Nat}
+/-- what a step by somebody else must leave alone for `RetOk · (s.thread u)` to survive -/
+theorem retOk_frame {s s' : St} {th : Thread}
+    (htab : s'.table th.stream = s.table th.stream)
+    (hn : s.nstores ≤ s'.nstores)
+    (hstr : ∀ m, m < s.nstores → (s'.store m).stream = (s.store m).stream)
+    (hrem : ∀ m, m < s.nstores → (s'.store m).removed = (s.store m).removed)
+    (h : RetOk s th) : RetOk s' th := by
+  obtain ⟨r, h1, h2, h3, h4⟩ := h
+  exact ⟨r, h1, by omega, by rw [hstr r h2]; exact h3, fun hr => by rw [htab]; exact h4 (by rw [← hrem r h2]; exact hr)⟩
+
+/-- what a step by somebody else must leave alone for `ThreadOk · u` to survive -/
+theorem threadOk_frame {s s' : St} {u : Nat}
     (hth : s'.thread u = s.thread u)
     (hst : ∀ x, x ∈ s.started → x ∈ s'.started)
     (hlk : s'.lock = some u ↔ s.lock = some u)
-    (htab : (s.lock = some u ∨ ((s.thread u).pc = .append ∧ g = true)) →
-        s'.table (s.thread u).stream = s.table (s.thread u).stream)
+    (htab : s.lock = some u → s'.table (s.thread u).stream = s.table (s.thread u).stream)
     (hsuf : s.lock = some u → s'.sufFile (s.thread u).stream = s.sufFile (s.thread u).stream)
     (hn : s.nstores ≤ s'.nstores)
     (hstr : ∀ m, m < s.nstores → (s'.store m).stream = (s.store m).stream)
     (hack : ∀ p, p ∈ s.acked → p ∈ s'.acked)
-    (h : ThreadOk g s u) : ThreadOk g s' u := by
-  have hret : (s.lock = some u ∨ (s.thread u).pc = .append) → RetOk g s (s.thread u) → RetOk g s' (s.thread u) := by
-    intro hc ⟨r, h1, h2, h3, h4⟩
-    exact ⟨r, h1, by omega, by rw [hstr r h2]; exact h3,
-      fun hg => by rw [htab (hc.elim Or.inl (fun hp => Or.inr ⟨hp, hg⟩))]; exact h4 hg⟩
+    (hremL : s.lock = some u → ∀ m, m < s.nstores → (s'.store m).removed = (s.store m).removed)
+    (hret : (s.lock = some u ∨ (s.thread u).pc = .append) → RetOk s (s.thread u) → RetOk s' (s.thread u))
+    (h : ThreadOk s u) : ThreadOk s' u := by
   unfold ThreadOk at h ⊢
   rw [hth]
   cases hpc : (s.thread u).pc with
@@ -78,31 +84,35 @@ theorem threadOk_frame {g : Bool} {s s' : St} {u : Nat}
     simp only [hpc] at h ⊢
     obtain ⟨h0, h⟩ := h
     refine ⟨hst _ h0, ?_⟩
-    rcases h with ⟨h1, h2⟩ | ⟨h1, h2⟩ | ⟨h1, h2, h3⟩ | ⟨h1, h2, h3, h4⟩ | ⟨h1, h2, h3, m, h4, h5, h6⟩ | ⟨h1, h2, h3⟩
+    rcases h with ⟨h1, h2⟩ | ⟨h1, h2⟩ | ⟨h1, h2, h3⟩ | ⟨h1, h2, h3, h4⟩ | ⟨h1, h2, h3, m, h4, h5, h6, h7⟩ | ⟨h1, h2, h3⟩
     · exact Or.inl ⟨h1, by rw [Ne, hlk]; exact h2⟩
     · exact Or.inr (Or.inl ⟨h1, hlk.2 h2⟩)
-    · exact Or.inr (Or.inr (Or.inl ⟨h1, hlk.2 h2, by rw [htab (Or.inl h2)]; exact h3⟩))
-    · exact Or.inr (Or.inr (Or.inr (Or.inl ⟨h1, hlk.2 h2, by rw [htab (Or.inl h2)]; exact h3,
+    · exact Or.inr (Or.inr (Or.inl ⟨h1, hlk.2 h2, by rw [htab h2]; exact h3⟩))
+    · exact Or.inr (Or.inr (Or.inr (Or.inl ⟨h1, hlk.2 h2, by rw [htab h2]; exact h3,
         by rw [hsuf h2]; exact h4⟩)))
-    · exact Or.inr (Or.inr (Or.inr (Or.inr (Or.inl ⟨h1, hlk.2 h2, by rw [htab (Or.inl h2)]; exact h3,
-        m, h4, by omega, by rw [hstr m h5]; exact h6⟩))))
+    · exact Or.inr (Or.inr (Or.inr (Or.inr (Or.inl ⟨h1, hlk.2 h2, by rw [htab h2]; exact h3,
+        m, h4, by omega, by rw [hstr m h5]; exact h6, by rw [hremL h2 m h5]; exact h7⟩))))
     · exact Or.inr (Or.inr (Or.inr (Or.inr (Or.inr ⟨h1, hlk.2 h2, hret (Or.inl h2) h3⟩))))
   | append =>
     simp only [hpc] at h ⊢
     exact ⟨hst _ h.1, by rw [Ne, hlk]; exact h.2.1, hret (Or.inr hpc) h.2.2⟩
+  | retry =>
+    simp only [hpc] at h ⊢
+    exact ⟨hst _ h.1, by rw [Ne, hlk]; exact h.2⟩
   | done =>
     simp only [hpc] at h ⊢
     obtain ⟨h0, h1, r, h2⟩ := h
     exact ⟨hst _ h0, by rw [Ne, hlk]; exact h1, r, hack _ h2⟩
 
 /-- a call that holds the lock is inside createSegStore, past its `lock` statement -/
-theorem holder_pc {g : Bool} {s : St} {t : Nat} (h : ThreadOk g s t) (hl : s.lock = some t) :
+theorem holder_pc {s : St} {t : Nat} (h : ThreadOk s t) (hl : s.lock = some t) :
     ∃ todo, (s.thread t).pc = .create todo ∧
       (todo = P1 ∨ todo = P2 ∨ todo = P3 ∨ todo = P4 ∨ todo = P5) := by
   unfold ThreadOk at h
   cases hpc : (s.thread t).pc with
   | idle => simp [hpc, hl] at h
   | append => simp [hpc, hl] at h
+  | retry => simp [hpc, hl] at h
   | done => simp [hpc, hl] at h
   | create todo =>
     simp only [hpc] at h
@@ -111,14 +121,29 @@ theorem holder_pc {g : Bool} {s : St} {t : Nat} (h : ThreadOk g s t) (hl : s.loc
     · exact absurd hl h2
     all_goals simp [h1]
 
-/-- first step of a call: getSegStore -/
-theorem inv_get {g : Bool} {s : St} {t i : Nat} (h : Inv g s) (hpc : (s.thread t).pc = .idle) :
-    Inv g (callStep Cfg.real s t i) := by
-  unfold callStep
-  simp only [hpc]
+/-- getSegStore: first step of a call, and first step after errSegStoreRemoved -/
+theorem inv_get {s : St} {t i : Nat} (h : Inv s)
+    (hpc : (s.thread t).pc = .idle ∨ (s.thread t).pc = .retry) : Inv (getStep Cfg.real s t i) := by
+  unfold getStep
+  simp only []
   cases hl : s.lock with
   | some x => simpa using h
   | none =>
+    have hothers : ∀ u, u ≠ t → ∀ s' : St, s'.thread = upd s.thread t (s'.thread t) → s'.lock = s.lock →
+        s'.table = s.table → s'.sufFile = s.sufFile → s'.nstores = s.nstores → s'.store = s.store →
+        s'.acked = s.acked → (∀ x, x ∈ s.started → x ∈ s'.started) → ThreadOk s' u := by
+      intro u hu s' e1 e2 e3 e4 e5 e6 e7 e8
+      apply threadOk_frame (s := s) _ e8 _ _ _ _ _ _ _ _ (h.th u)
+      · rw [e1]; simp [upd, hu]
+      · rw [e2]
+      · intro _; rw [e3]
+      · intro _; rw [e4]
+      · omega
+      · intro m _; rw [e6]
+      · intro p hp; rw [e7]; exact hp
+      · intro _ m _; rw [e6]
+      · intro _ hr
+        exact retOk_frame (by rw [e3]) (by omega) (fun m _ => by rw [e6]) (fun m _ => by rw [e6]) hr
     cases htb : s.table i with
     | some r =>
       simp only []
@@ -127,8 +152,8 @@ theorem inv_get {g : Bool} {s : St} {t i : Nat} (h : Inv g s) (hpc : (s.thread t
       · intro u
         by_cases hu : u = t
         · subst hu
-          simp [ThreadOk, upd, RetOk, hl, htb, ht.1, ht.2]
-        · apply threadOk_frame (s := s) _ _ _ _ _ _ _ _ (h.th u) <;> simp [upd, hu, hl]
+          simp [ThreadOk, upd, RetOk, hl, htb, ht.1, ht.2.1]
+        · apply hothers u hu <;> simp [upd, hl]
           intro x hx; exact Or.inl hx
       · exact h.tab
       · exact h.ack
@@ -141,13 +166,28 @@ theorem inv_get {g : Bool} {s : St} {t i : Nat} (h : Inv g s) (hpc : (s.thread t
         by_cases hu : u = t
         · subst hu
           simp [ThreadOk, upd, afterCreate, Cfg.real, hl]
-        · apply threadOk_frame (s := s) _ _ _ _ _ _ _ _ (h.th u) <;> simp [upd, hu, hl]
+        · apply hothers u hu <;> simp [upd, hl]
           intro x hx; exact Or.inl hx
       · exact h.tab
       · exact h.ack
       · exact h.sufH
       · exact h.nodup
 
+/-- the common case of `threadOk_frame`: the step leaves the table entry of `u`'s stream and the marks alone -/
+theorem threadOk_frame' {s s' : St} {u : Nat}
+    (hth : s'.thread u = s.thread u)
+    (hst : ∀ x, x ∈ s.started → x ∈ s'.started)
+    (hlk : s'.lock = some u ↔ s.lock = some u)
+    (htab : (s.lock = some u ∨ (s.thread u).pc = .append) →
+        s'.table (s.thread u).stream = s.table (s.thread u).stream)
+    (hsuf : s.lock = some u → s'.sufFile (s.thread u).stream = s.sufFile (s.thread u).stream)
+    (hn : s.nstores ≤ s'.nstores)
+    (hstr : ∀ m, m < s.nstores → (s'.store m).stream = (s.store m).stream)
+    (hrem : ∀ m, m < s.nstores → (s'.store m).removed = (s.store m).removed)
+    (hack : ∀ p, p ∈ s.acked → p ∈ s'.acked)
+    (h : ThreadOk s u) : ThreadOk s' u :=
+  threadOk_frame hth hst hlk (fun hl => htab (Or.inl hl)) hsuf hn hstr hack (fun _ => hrem)
+    (fun hc hr => retOk_frame (htab hc) hn hstr hrem hr) h
 
 theorem nodup_snoc {α : Type} {l : List α} {a : α} (h : l.Nodup) (ha : a ∉ l) : (l ++ [a]).Nodup := by
   rw [List.nodup_append]
@@ -158,20 +198,20 @@ theorem nodup_snoc {α : Type} {l : List α} {a : α} (h : l.Nodup) (ha : a ∉ 
   exact ha hx
 
 /-- a call that does not hold the lock is not past `lock` inside createSegStore -/
-theorem other_not_holder {g : Bool} {s : St} {t u : Nat} (hl : s.lock = some t) (hu : u ≠ t) :
+theorem other_not_holder {s : St} {t u : Nat} (hl : s.lock = some t) (hu : u ≠ t) :
     s.lock ≠ some u := by
   rw [hl]; intro h; exact hu (Option.some.inj h).symm
 
 /-- the statements of createSegStore -/
-theorem inv_create {g : Bool} {s : St} {t i : Nat} {a : CStep} {rest : List CStep} (h : Inv g s)
-    (hpc : (s.thread t).pc = .create (a :: rest)) : Inv g (callStep Cfg.real s t i) := by
+theorem inv_create {s : St} {t i : Nat} {a : CStep} {rest : List CStep} (h : Inv s)
+    (hpc : (s.thread t).pc = .create (a :: rest)) : Inv (callStep Cfg.real s t i) := by
   have ht := h.th t
   unfold ThreadOk at ht
   simp only [hpc] at ht
   obtain ⟨hst, ht⟩ := ht
   unfold callStep
   simp only [hpc]
-  rcases ht with ⟨h1, h2⟩ | ⟨h1, h2⟩ | ⟨h1, h2, h3⟩ | ⟨h1, h2, h3, h4⟩ | ⟨h1, h2, h3, m, h4, h5, h6⟩ | ⟨h1, h2, r, h3, h4, h5, h6⟩
+  rcases ht with ⟨h1, h2⟩ | ⟨h1, h2⟩ | ⟨h1, h2, h3⟩ | ⟨h1, h2, h3, h4⟩ | ⟨h1, h2, h3, m, h4, h5, h6, h7⟩ | ⟨h1, h2, r, h3, h4, h5, h6⟩
   · -- lock
     injection h1 with ha hr; subst ha; subst hr
     unfold createStep
@@ -183,7 +223,7 @@ theorem inv_create {g : Bool} {s : St} {t i : Nat} {a : CStep} {rest : List CSte
       · intro u
         by_cases hu : u = t
         · subst hu; simp [ThreadOk, upd, afterCreate, hst]
-        · apply threadOk_frame (s := s) _ _ _ _ _ _ _ _ (h.th u) <;> simp [upd, hu, hl]
+        · apply threadOk_frame' (s := s) _ _ _ _ _ _ _ _ _ (h.th u) <;> simp [upd, hu, hl]
           intro hc; exact hu hc.symm
       · exact h.tab
       · exact h.ack
@@ -200,8 +240,8 @@ theorem inv_create {g : Bool} {s : St} {t i : Nat} {a : CStep} {rest : List CSte
       constructor
       · intro u
         by_cases hu : u = t
-        · subst hu; simp [ThreadOk, upd, afterCreate, hst, h2, RetOk, htb, htr.1, htr.2]
-        · apply threadOk_frame (s := s) _ _ _ _ _ _ _ _ (h.th u) <;> simp [upd, hu]
+        · subst hu; simp [ThreadOk, upd, afterCreate, hst, h2, RetOk, htb, htr.1, htr.2.1]
+        · apply threadOk_frame' (s := s) _ _ _ _ _ _ _ _ _ (h.th u) <;> simp [upd, hu]
       · exact h.tab
       · exact h.ack
       · exact h.sufH
@@ -212,7 +252,7 @@ theorem inv_create {g : Bool} {s : St} {t i : Nat} {a : CStep} {rest : List CSte
       · intro u
         by_cases hu : u = t
         · subst hu; simp [ThreadOk, upd, afterCreate, hst, h2, htb]
-        · apply threadOk_frame (s := s) _ _ _ _ _ _ _ _ (h.th u) <;> simp [upd, hu]
+        · apply threadOk_frame' (s := s) _ _ _ _ _ _ _ _ _ (h.th u) <;> simp [upd, hu]
       · exact h.tab
       · exact h.ack
       · exact h.sufH
@@ -225,7 +265,7 @@ theorem inv_create {g : Bool} {s : St} {t i : Nat} {a : CStep} {rest : List CSte
     · intro u
       by_cases hu : u = t
       · subst hu; simp [ThreadOk, upd, afterCreate, hst, h2, h3]
-      · apply threadOk_frame (s := s) _ _ _ _ _ _ _ _ (h.th u) <;> simp [upd, hu]
+      · apply threadOk_frame' (s := s) _ _ _ _ _ _ _ _ _ (h.th u) <;> simp [upd, hu]
     · exact h.tab
     · exact h.ack
     · exact h.sufH
@@ -238,18 +278,19 @@ theorem inv_create {g : Bool} {s : St} {t i : Nat} {a : CStep} {rest : List CSte
     · intro u
       by_cases hu : u = t
       · subst hu; simp [ThreadOk, upd, afterCreate, hst, h2, h3]
-      · have hnl := other_not_holder (g := g) h2 hu
-        apply threadOk_frame (s := s) _ _ _ _ _ _ _ _ (h.th u) <;> simp [upd, hu, hnl]
-        intro m hm
-        have hne : m ≠ s.nstores := by omega
-        simp [hne]
+      · have hnl := other_not_holder h2 hu
+        apply threadOk_frame' (s := s) _ _ _ _ _ _ _ _ _ (h.th u) <;> simp [upd, hu, hnl]
+        all_goals
+          intro m hm
+          have hne : m ≠ s.nstores := by omega
+          simp [hne]
     · intro j r hjr
       have := h.tab j r hjr
       have hne : r ≠ s.nstores := by omega
       simp [upd, hne]
       exact ⟨by omega, this.2⟩
-    · intro hg e r her
-      have := h.ack hg e r her
+    · intro e r her
+      have := h.ack e r her
       have hne : r ≠ s.nstores := by omega
       simp [upd, hne]
       exact ⟨by omega, this.2⟩
@@ -273,27 +314,27 @@ theorem inv_create {g : Bool} {s : St} {t i : Nat} {a : CStep} {rest : List CSte
     · intro u
       by_cases hu : u = t
       · subst hu; simp [ThreadOk, upd, afterCreate, hst, h2, RetOk, h5, h6]
-      · have hnl := other_not_holder (g := g) h2 hu
+      · have hnl := other_not_holder h2 hu
         have hou := h.th u
-        apply threadOk_frame (s := s) _ _ _ _ _ _ _ _ hou <;> simp [upd, hu, hnl]
-        -- a call about to append on the same stream would see a registered store, but the table has none
-        intro hap hg hsame
-        unfold ThreadOk at hou
-        simp only [hap] at hou
-        obtain ⟨_, _, r, _, _, _, hreg⟩ := hou
-        have := hreg hg
-        rw [hsame, h3] at this
-        exact absurd this (by simp)
+        apply threadOk_frame (s := s) _ _ _ _ _ _ _ _ _ _ hou <;> simp [upd, hu, hnl]
+        -- a call about to append on the same stream holds a store that was removed: the table has no entry
+        intro hap ⟨r, hr1, hr2, hr3, hr4⟩
+        refine ⟨r, hr1, hr2, hr3, ?_⟩
+        intro hnr
+        have := hr4 hnr
+        by_cases hsame : (s.thread u).stream = (s.thread t).stream
+        · rw [hsame, h3] at this; exact absurd this (by simp)
+        · simp [upd, hsame]; exact this
     · intro j r hjr
       by_cases hj : j = (s.thread t).stream
       · subst hj
         simp [upd] at hjr
         subst hjr
-        exact ⟨h5, h6⟩
+        exact ⟨h5, h6, h7⟩
       · simp [upd, hj] at hjr
         exact h.tab j r hjr
-    · intro hg e r her
-      have ha := h.ack hg e r her
+    · intro e r her
+      have ha := h.ack e r her
       refine ⟨ha.1, ?_⟩
       rcases ha.2 with hp | ⟨he, hreg⟩
       · exact Or.inl hp
@@ -313,61 +354,79 @@ theorem inv_create {g : Bool} {s : St} {t i : Nat} {a : CStep} {rest : List CSte
     · intro u
       by_cases hu : u = t
       · subst hu; simp [ThreadOk, upd, afterCreate, hst, RetOk, h3, h4, h5]; exact h6
-      · have hnl := other_not_holder (g := g) h2 hu
-        apply threadOk_frame (s := s) _ _ _ _ _ _ _ _ (h.th u) <;> simp [upd, hu, hnl]
+      · have hnl := other_not_holder h2 hu
+        apply threadOk_frame' (s := s) _ _ _ _ _ _ _ _ _ (h.th u) <;> simp [upd, hu, hnl]
     · exact h.tab
     · exact h.ack
     · exact h.sufH
     · exact h.nodup
 
-/-- AddEntry -/
-theorem inv_append {g : Bool} {s : St} {t i : Nat} (h : Inv g s) (hpc : (s.thread t).pc = .append) :
-    Inv g (callStep Cfg.real s t i) := by
+/-- AddEntry: on a store that removeStaleSegments has marked, nothing is appended and the call starts over -/
+theorem inv_append {s : St} {t i : Nat} (h : Inv s) (hpc : (s.thread t).pc = .append) :
+    Inv (callStep Cfg.real s t i) := by
   have ht := h.th t
   unfold ThreadOk at ht
   simp only [hpc] at ht
   obtain ⟨hst, hnl, r, h3, h4, h5, h6⟩ := ht
   unfold callStep
   simp only [hpc, h3]
-  constructor
-  · intro u
-    by_cases hu : u = t
-    · subst hu; simp [ThreadOk, upd, hst, hnl]
-    · apply threadOk_frame (s := s) _ _ _ _ _ _ _ _ (h.th u) <;> simp [upd, hu]
-      · intro m hm; by_cases hmr : m = r <;> simp [hmr]
-      · intro a b hab; exact Or.inl hab
-  · intro j r' hjr
-    have := h.tab j r' hjr
-    refine ⟨this.1, ?_⟩
-    by_cases hmr : r' = r <;> simp [upd, hmr]
-    · subst hmr; exact this.2
-    · exact this.2
-  · intro hg e r' her
+  by_cases hrm : (s.store r).removed = true
+  · -- errSegStoreRemoved
+    rw [if_pos (show Cfg.real.retry = true ∧ (s.store r).removed = true from ⟨rfl, hrm⟩)]
+    constructor
+    · intro u
+      by_cases hu : u = t
+      · subst hu; simp [ThreadOk, upd, hst, hnl]
+      · apply threadOk_frame' (s := s) _ _ _ _ _ _ _ _ _ (h.th u) <;> simp [upd, hu]
+    · exact h.tab
+    · exact h.ack
+    · exact h.sufH
+    · exact h.nodup
+  · have hrf : (s.store r).removed = false := by cases hc : (s.store r).removed <;> simp_all
+    rw [if_neg (show ¬ (Cfg.real.retry = true ∧ (s.store r).removed = true) from fun hc => hrm hc.2)]
+    have hreg := h6 hrf
     have hstr : ∀ m, ((upd s.store r { s.store r with events := (s.store r).events ++ [t] }) m).stream = (s.store m).stream := by
       intro m; by_cases hmr : m = r <;> simp [upd, hmr]
-    simp at her
-    rcases her with her | ⟨he, hr⟩
-    · have ha := h.ack hg e r' her
-      refine ⟨ha.1, ?_⟩
-      rcases ha.2 with hp | ⟨hev, hreg⟩
-      · exact Or.inl hp
-      · right
+    have hrem : ∀ m, ((upd s.store r { s.store r with events := (s.store r).events ++ [t] }) m).removed = (s.store m).removed := by
+      intro m; by_cases hmr : m = r <;> simp [upd, hmr]
+    constructor
+    · intro u
+      by_cases hu : u = t
+      · subst hu; simp [ThreadOk, upd, hst, hnl]
+      · apply threadOk_frame' (s := s) _ _ _ _ _ _ _ _ _ (h.th u) <;> simp [upd, hu]
+        · intro m hm; by_cases hmr : m = r <;> simp [hmr]
+        · intro m hm; by_cases hmr : m = r <;> simp [hmr]
+        · intro a b hab; exact Or.inl hab
+    · intro j r' hjr
+      have := h.tab j r' hjr
+      refine ⟨this.1, ?_⟩
+      simp only [hstr, hrem]
+      exact this.2
+    · intro e r' her
+      simp at her
+      rcases her with her | ⟨he, hr⟩
+      · have ha := h.ack e r' her
+        refine ⟨ha.1, ?_⟩
+        rcases ha.2 with hp | ⟨hev, hreg'⟩
+        · exact Or.inl hp
+        · right
+          simp only [hstr]
+          refine ⟨?_, hreg'⟩
+          by_cases hmr : r' = r <;> simp [upd, hmr]
+          · subst hmr; exact Or.inl hev
+          · exact hev
+      · subst he; subst hr
+        refine ⟨h4, Or.inr ⟨by simp [upd], ?_⟩⟩
         simp only [hstr]
-        refine ⟨?_, hreg⟩
-        by_cases hmr : r' = r <;> simp [upd, hmr]
-        · subst hmr; exact Or.inl hev
-        · exact hev
-    · subst he; subst hr
-      refine ⟨h4, Or.inr ⟨by simp [upd], ?_⟩⟩
-      simp only [hstr]
-      rw [h5]; exact h6 hg
-  · exact h.sufH
-  · exact h.nodup
+        rw [h5]; exact hreg
+    · exact h.sufH
+    · exact h.nodup
 
 /-- every step of a call -/
-theorem inv_call {g : Bool} {s : St} {t i : Nat} (h : Inv g s) : Inv g (callStep Cfg.real s t i) := by
+theorem inv_call {s : St} {t i : Nat} (h : Inv s) : Inv (callStep Cfg.real s t i) := by
   cases hpc : (s.thread t).pc with
-  | idle => exact inv_get h hpc
+  | idle => unfold callStep; simp only [hpc]; exact inv_get h (Or.inl hpc)
+  | retry => unfold callStep; simp only [hpc]; exact inv_get h (Or.inr hpc)
   | append => exact inv_append h hpc
   | done => unfold callStep; simp only [hpc]; exact h
   | create todo =>
@@ -378,12 +437,8 @@ theorem inv_call {g : Bool} {s : St} {t i : Nat} (h : Inv g s) : Inv g (callStep
       unfold ThreadOk at ht
       simp [hpc] at ht
 
-/-- nobody is inside the lock-protected part of createSegStore while the lock is free -/
-theorem no_holder {g : Bool} {s : St} (hl : s.lock = none) (u : Nat) : s.lock ≠ some u := by
-  rw [hl]; simp
-
 /-- flush + rotation of the registered store -/
-theorem inv_flush {g : Bool} {s : St} {i : Nat} (h : Inv g s) : Inv g (flushStep s i) := by
+theorem inv_flush {s : St} {i : Nat} (h : Inv s) : Inv (flushStep s i) := by
   unfold flushStep
   cases hl : s.lock with
   | some x => simpa using h
@@ -399,14 +454,17 @@ theorem inv_flush {g : Bool} {s : St} {i : Nat} (h : Inv g s) : Inv g (flushStep
         have hstr : ∀ m, ((upd s.store r { s.store r with events := [], suffix := s.sufFile i }) m).stream
             = (s.store m).stream := by
           intro m; by_cases hmr : m = r <;> simp [upd, hmr]
+        have hrem : ∀ m, ((upd s.store r { s.store r with events := [], suffix := s.sufFile i }) m).removed
+            = (s.store m).removed := by
+          intro m; by_cases hmr : m = r <;> simp [upd, hmr]
         constructor
         · intro u
-          apply threadOk_frame (s := s) _ _ _ _ _ _ _ _ (h.th u) <;> simp [hl, hstr]
+          apply threadOk_frame' (s := s) _ _ _ _ _ _ _ _ _ (h.th u) <;> simp [hl, hstr, hrem]
         · intro j r' hjr
           have := h.tab j r' hjr
-          exact ⟨this.1, by simp only [hstr]; exact this.2⟩
-        · intro hg e r' her
-          have ha := h.ack hg e r' her
+          exact ⟨this.1, by simp only [hstr, hrem]; exact this.2⟩
+        · intro e r' her
+          have ha := h.ack e r' her
           refine ⟨ha.1, ?_⟩
           rcases ha.2 with hp | ⟨he, hreg⟩
           · left; simp; exact Or.inl hp
@@ -426,9 +484,8 @@ theorem inv_flush {g : Bool} {s : St} {i : Nat} (h : Inv g s) : Inv g (flushStep
           have := h.sufH _ _ hmem
           omega
 
-/-- removeStaleSegments, under the eviction guard when `g = true` -/
-theorem inv_evict {g : Bool} {s : St} {i : Nat} (h : Inv g s) (hg : g = true → stepOk s (.evict i)) :
-    Inv g (evictStep s i) := by
+/-- removeStaleSegments at ANY moment: the store is marked under its lock, a call that holds it will notice -/
+theorem inv_evict {s : St} {i : Nat} (h : Inv s) : Inv (evictStep Cfg.real s i) := by
   unfold evictStep
   cases hl : s.lock with
   | some x => simpa using h
@@ -438,93 +495,65 @@ theorem inv_evict {g : Bool} {s : St} {i : Nat} (h : Inv g s) (hg : g = true →
     | some r =>
       simp only []
       by_cases hev : (s.store r).events = []
-      · simp only [hev, if_true]
+      · rw [if_pos hev]
+        have htr := h.tab i r htb
+        have hstr : ∀ m, ((upd s.store r { s.store r with removed := Cfg.real.retry }) m).stream = (s.store m).stream := by
+          intro m; by_cases hmr : m = r <;> simp [upd, hmr]
         constructor
         · intro u
           have hou := h.th u
-          apply threadOk_frame (s := s) _ _ _ _ _ _ _ _ hou <;> simp [hl]
-          intro hap hgt
-          -- guarded run: no call about to append holds the registered store of `i`
-          by_cases hsame : (s.thread u).stream = i
-          · exfalso
-            unfold ThreadOk at hou
-            simp only [hap] at hou
-            obtain ⟨hstu, _, r', hr1, _, _, hreg⟩ := hou
-            have hguard := hg hgt u hstu
-            have hregi := hreg hgt
-            rw [hsame] at hregi
-            simp [holdsRegistered, hap, htb, hr1, hregi] at hguard
-            rw [htb] at hregi
-            exact hguard (Option.some.inj hregi).symm
-          · simp [upd, hsame]
+          apply threadOk_frame (s := s) _ _ _ _ _ _ _ _ _ _ hou <;> simp [hl, hstr]
+          -- a call about to append: its store is the evicted one (now marked) or was marked before
+          intro hap ⟨r', hr1, hr2, hr3, hr4⟩
+          refine ⟨r', hr1, hr2, by simp only [hstr]; exact hr3, ?_⟩
+          by_cases hmr : r' = r
+          · subst hmr; simp [upd, Cfg.real]
+          · simp only [upd, hmr, if_false]
+            intro hnr
+            have hreg := hr4 hnr
+            by_cases hsame : (s.thread u).stream = i
+            · rw [hsame, htb] at hreg; exact absurd (Option.some.inj hreg).symm hmr
+            · simp [hsame]; exact hreg
         · intro j r' hjr
           by_cases hj : j = i
           · subst hj; simp [upd] at hjr
-          · simp [upd, hj] at hjr; exact h.tab j r' hjr
-        · intro hgt e r' her
-          have ha := h.ack hgt e r' her
+          · simp [upd, hj] at hjr
+            have := h.tab j r' hjr
+            have hne : r' ≠ r := by
+              intro hc; subst hc; rw [htr.2.1] at this; exact hj this.2.1.symm
+            simp [upd, hne]; exact this
+        · intro e r' her
+          have ha := h.ack e r' her
           refine ⟨ha.1, ?_⟩
           rcases ha.2 with hp | ⟨he, hreg⟩
           · exact Or.inl hp
           · right
-            refine ⟨he, ?_⟩
+            have hne' : r' ≠ r := by
+              intro hc; subst hc; rw [hev] at he; simp at he
             have hne : (s.store r').stream ≠ i := by
               intro hc
               rw [hc, htb] at hreg
-              have := Option.some.inj hreg
-              subst this
-              rw [hev] at he
-              simp at he
-            simp [upd, hne]; exact hreg
+              exact hne' (Option.some.inj hreg).symm
+            simp [upd, hne, hne']; exact ⟨he, hreg⟩
         · exact h.sufH
         · exact h.nodup
-      · simp only [hev, if_false]; exact h
+      · rw [if_neg hev]; exact h
 
-theorem inv_step {g : Bool} {s : St} {l : Label} (h : Inv g s) (hg : g = true → stepOk s l) :
-    Inv g (step Cfg.real s l) := by
+theorem inv_step {s : St} {l : Label} (h : Inv s) : Inv (step Cfg.real s l) := by
   cases l with
   | call t i => exact inv_call h
   | flush i => exact inv_flush h
-  | evict i => exact inv_evict h hg
+  | evict i => exact inv_evict h
 
-/-- the eviction guard along a schedule, as a proposition -/
-def runOk (s : St) : List Label → Prop
-  | [] => True
-  | l :: ls => stepOk s l ∧ runOk (step Cfg.real s l) ls
-
-theorem inv_run {g : Bool} (ls : List Label) (s : St) (h : Inv g s) (hg : g = true → runOk s ls) :
-    Inv g (run Cfg.real s ls) := by
+theorem inv_run (ls : List Label) (s : St) (h : Inv s) : Inv (run Cfg.real s ls) := by
   induction ls generalizing s with
   | nil => exact h
   | cons l ls ih =>
     simp only [run, List.foldl_cons]
-    exact ih _ (inv_step h (fun hgt => (hg hgt).1)) (fun hgt => (hg hgt).2)
+    exact ih _ (inv_step h)
 
-theorem runOk_of_evictSafe (ls : List Label) (s : St) (h : evictSafe Cfg.real s ls = true) : runOk s ls := by
-  induction ls generalizing s with
-  | nil => trivial
-  | cons l ls ih =>
-    simp only [evictSafe, Bool.and_eq_true] at h
-    refine ⟨?_, ih _ h.2⟩
-    cases l with
-    | call t i => trivial
-    | flush i => trivial
-    | evict i =>
-      intro t ht
-      have := h.1
-      simp only [List.all_eq_true] at this
-      have := this t ht
-      simpa using this
-
-theorem evictSafe_of_evictFree (ls : List Label) (s : St) (h : evictFree ls = true) :
-    evictSafe Cfg.real s ls = true := by
-  induction ls generalizing s with
-  | nil => rfl
-  | cons l ls ih =>
-    cases l with
-    | call t i => simp only [evictFree] at h; simp [evictSafe, ih _ h]
-    | flush i => simp only [evictFree] at h; simp [evictSafe, ih _ h]
-    | evict i => simp [evictFree] at h
+/-- the invariant holds in every state reachable from the empty engine -/
+theorem inv_reach (sched : List Label) : Inv (run Cfg.real init sched) := inv_run sched init inv_init
 
 /-! ### eviction-free runs: one store per stream -/
 
@@ -546,43 +575,52 @@ theorem built_frame {s s' : St} (htab : s'.table = s.table) (hn : s'.nstores = s
   · right; exact ⟨t, by rw [hth t h1]; exact h1, by rw [hth t h1]; exact h2⟩
 
 /-- a call whose next statement is the insert holds the lock -/
-theorem p4_holds {g : Bool} {s : St} {u : Nat} (h : ThreadOk g s u) (hpc : (s.thread u).pc = .create P4) :
+theorem p4_holds {s : St} {u : Nat} (h : ThreadOk s u) (hpc : (s.thread u).pc = .create P4) :
     s.lock = some u := by
   unfold ThreadOk at h
   simp only [hpc] at h
   rcases h.2 with ⟨h1, _⟩ | ⟨h1, _⟩ | ⟨h1, _⟩ | ⟨h1, _⟩ | ⟨_, h2, _⟩ | ⟨h1, _⟩
   all_goals first | exact h2 | (simp at h1)
 
-theorem built_call {s : St} {t i : Nat} (h : Inv true s) (hb : Built s) : Built (callStep Cfg.real s t i) := by
+theorem built_get {s : St} {t i : Nat} (hb : Built s)
+    (hpc : (s.thread t).pc = .idle ∨ (s.thread t).pc = .retry) : Built (getStep Cfg.real s t i) := by
+  unfold getStep
+  simp only []
+  have hne : ∀ u, (s.thread u).pc = .create P4 → u ≠ t := by
+    intro u hu hut; subst hut; rcases hpc with h | h <;> rw [h] at hu <;> simp at hu
+  cases hl : s.lock with
+  | some x => simpa using hb
+  | none =>
+    cases htb : s.table i with
+    | some r =>
+      apply built_frame _ _ _ _ hb <;> simp [upd]
+      intro u hu hut; exact absurd hut (hne u hu)
+    | none =>
+      apply built_frame _ _ _ _ hb <;> simp [upd]
+      intro u hu hut; exact absurd hut (hne u hu)
+
+theorem built_call {s : St} {t i : Nat} (h : Inv s) (hb : Built s) : Built (callStep Cfg.real s t i) := by
   have ht := h.th t
   unfold ThreadOk at ht
   cases hpc : (s.thread t).pc with
-  | idle =>
-    unfold callStep
-    simp only [hpc]
-    cases hl : s.lock with
-    | some x => simpa using hb
-    | none =>
-      cases htb : s.table i with
-      | some r =>
-        apply built_frame _ _ _ _ hb <;> simp [upd]
-        intro u hu hut; subst hut; rw [hpc] at hu; simp at hu
-      | none =>
-        apply built_frame _ _ _ _ hb <;> simp [upd]
-        intro u hu hut; subst hut; rw [hpc] at hu; simp at hu
+  | idle => unfold callStep; simp only [hpc]; exact built_get hb (Or.inl hpc)
+  | retry => unfold callStep; simp only [hpc]; exact built_get hb (Or.inr hpc)
   | done => unfold callStep; simp only [hpc]; exact hb
   | append =>
     simp only [hpc] at ht
     obtain ⟨_, _, r, h3, _⟩ := ht
     unfold callStep
     simp only [hpc, h3]
-    apply built_frame _ _ _ _ hb <;> simp [upd]
-    · intro m; by_cases hmr : m = r <;> simp [hmr]
-    · intro u hu hut; subst hut; rw [hpc] at hu; simp at hu
+    split
+    · apply built_frame _ _ _ _ hb <;> simp [upd]
+      intro u hu hut; subst hut; rw [hpc] at hu; simp at hu
+    · apply built_frame _ _ _ _ hb <;> simp [upd]
+      · intro m; by_cases hmr : m = r <;> simp [hmr]
+      · intro u hu hut; subst hut; rw [hpc] at hu; simp at hu
   | create todo =>
     simp only [hpc] at ht
     obtain ⟨hst, ht⟩ := ht
-    rcases ht with ⟨h1, h2⟩ | ⟨h1, h2⟩ | ⟨h1, h2, h3⟩ | ⟨h1, h2, h3, h4⟩ | ⟨h1, h2, h3, m0, h4, h5, h6⟩ | ⟨h1, h2, r, h3, h4, h5, h6⟩
+    rcases ht with ⟨h1, h2⟩ | ⟨h1, h2⟩ | ⟨h1, h2, h3⟩ | ⟨h1, h2, h3, h4⟩ | ⟨h1, h2, h3, m0, h4, h5, h6, h7⟩ | ⟨h1, h2, r, h3, h4, h5, h6⟩
     · subst h1
       unfold callStep; simp only [hpc]; unfold createStep; simp only []
       cases hl : s.lock with
@@ -653,12 +691,12 @@ theorem built_flush {s : St} {i : Nat} (hb : Built s) : Built (flushStep s i) :=
     | some r =>
       simp only []
       by_cases hev : (s.store r).events = []
-      · simp only [hev, if_true]; exact hb
-      · simp only [hev, if_false]
+      · rw [if_pos hev]; exact hb
+      · rw [if_neg hev]
         apply built_frame _ _ _ _ hb <;> simp [upd]
         intro m; by_cases hmr : m = r <;> simp [hmr]
 
-theorem built_run (ls : List Label) (s : St) (h : Inv true s) (hb : Built s) (hf : evictFree ls = true) :
+theorem built_run (ls : List Label) (s : St) (h : Inv s) (hb : Built s) (hf : evictFree ls = true) :
     Built (run Cfg.real s ls) := by
   induction ls generalizing s with
   | nil => exact hb
@@ -667,10 +705,10 @@ theorem built_run (ls : List Label) (s : St) (h : Inv true s) (hb : Built s) (hf
     cases l with
     | call t i =>
       simp only [evictFree] at hf
-      exact ih _ (inv_step h (fun _ => trivial)) (built_call h hb) hf
+      exact ih _ (inv_step h) (built_call h hb) hf
     | flush i =>
       simp only [evictFree] at hf
-      exact ih _ (inv_step h (fun _ => trivial)) (built_flush hb) hf
+      exact ih _ (inv_step h) (built_flush hb) hf
     | evict i => simp [evictFree] at hf
 
 end SigModel.Lemmas.C11f
